@@ -191,18 +191,17 @@ def initial_sends(trace, kind):
 INFO_PAYLOAD = "536f7572636520456e67696e6520517565727900"
 
 
-def request_oracle(tags, events, trace):
-    """C09 for Valve, evaluated on an observed trace: every datagram sent is an
-    initial request (fixed header, kind, default payload) or - immediately after
-    a challenge reply - the same request carrying exactly that challenge; all go
-    to the query's port; nothing else is sent. events: the script (bytes/None)."""
-    port = tags.get("port")
+def walk_trace(tags, events, trace):
+    """Walk an observed trace against the script. Yields for every send:
+    (port, kind_hex, body_hex, last) where last describes what the receive just
+    before it returned: None (nothing / timeout / not a receive), ("challenge", payload_hex)
+    for an unsplit packet of kind 0x41 received outside a split collection, or ("split",)
+    when the last receive belonged to a split collection."""
     gold = tags.get("e") == "gold"
     evs = list(events)
-    pending = None      # challenge bytes (hex) that the next send must echo
     collecting = 0
-    after_split = False  # a split response was just completed: its reassembled kind may be a challenge
-    kind = None
+    last = None
+    out = []
     for tok in trace.split(";"):
         if not tok:
             continue
@@ -210,50 +209,72 @@ def request_oracle(tags, events, trace):
             ev = evs.pop(0) if evs else None
             if ev is None:
                 collecting = 0
+                last = None
                 continue
             ev = ev[:6144]          # the client reads at most PACKET_SIZE bytes of a datagram
             if collecting > 0:
                 collecting -= 1
-                after_split = collecting == 0
-                continue
-            after_split = False
-            if ev[:1] == b"\xfe" and len(ev) > 8:
+                last = ("split",)
+            elif ev[:1] == b"\xfe" and len(ev) > 8:
                 total = (ev[8] & 15) if gold else ev[8]
                 collecting = max(total - 1, 0)
-                after_split = collecting == 0
+                last = ("split",)
             elif len(ev) >= 5 and ev[4] == 0x41:
-                # the client does not inspect the 4 header bytes of an unsplit packet; whatever
-                # carries the challenge kind is answered as a challenge
-                pending = ev[5:].hex()
+                # the client does not inspect the 4 header bytes of an unsplit packet
+                last = ("challenge", ev[5:].hex())
+            else:
+                last = None
         elif tok[0] == "S":
             p, _, data = tok[1:].partition(":")
-            if port is not None and p != port:
-                return "request sent to port %s instead of %s" % (p, port)
-            if not data.startswith("ffffffff") or len(data) < 10:
-                return "request without the simple header: " + data[:60]
-            k = data[8:10]
-            body = data[10:]
-            default = INFO_PAYLOAD if k == "54" else "ffffffff"
-            if pending is not None:
-                want = (INFO_PAYLOAD + pending) if k == "54" else pending
-                if body != want or k != kind:
-                    return "challenge %s not echoed: sent %s" % (pending[:80], data[:120])
-                pending = None
-            elif after_split and k == kind and body != default:
-                # a (malformed) split response reassembled into a challenge packet: the echo
-                # carries its payload; only the framing can be checked here
-                if k == "54" and not body.startswith(INFO_PAYLOAD):
-                    return "challenge echo without the query string: " + data[:120]
-            else:
-                if k not in ("54", "55", "56") or body != default:
-                    return "not a request of the protocol: " + data[:120]
-                kind = k
-            after_split = False
-        elif tok[0] in "UA":
-            continue
+            out.append((p, data[8:10], data[10:], last, data))
+            collecting = 0
+            last = None
         else:
-            return "unexpected trace event " + tok[:40]
+            last = None if tok[0] not in "UA" else last
+    return out
+
+
+def is_echo(kind, body, last):
+    if last is None or last[0] != "challenge":
+        return False
+    want = (INFO_PAYLOAD + last[1]) if kind == "54" else last[1]
+    return body == want
+
+
+def request_oracle(tags, events, trace):
+    """C09 for Valve, evaluated on an observed trace: every datagram sent is an
+    initial request (fixed header, kind, default payload) or - immediately after
+    a challenge reply - the same request carrying exactly that challenge; all go
+    to the query's port; nothing else is sent. events: the script (bytes/None)."""
+    port = tags.get("port")
+    kind = None
+    for p, k, body, last, data in walk_trace(tags, events, trace):
+        if port is not None and p != port:
+            return "request sent to port %s instead of %s" % (p, port)
+        if not data.startswith("ffffffff") or len(data) < 10:
+            return "request without the simple header: " + data[:60]
+        default = INFO_PAYLOAD if k == "54" else "ffffffff"
+        if last is not None and last[0] == "challenge":
+            if not (is_echo(k, body, last) and k == kind):
+                return "challenge %s not echoed: sent %s" % (last[1][:80], data[:120])
+        elif body == default and k in ("54", "55", "56"):
+            kind = k
+        elif last is not None and last[0] == "split" and k == kind and (k != "54" or body.startswith(INFO_PAYLOAD)):
+            # a (malformed) split response reassembled into a challenge packet: the echo carries
+            # its payload; only the framing can be checked here
+            pass
+        else:
+            return "not a request of the protocol: " + data[:120]
     return None
+
+
+def count_attempts(tags, events, trace, kind):
+    """number of attempts of the request unit of a kind: initial requests, i.e.
+    sends of the default payload that are not the echo of a challenge"""
+    k = "%02x" % kind
+    default = INFO_PAYLOAD if k == "54" else "ffffffff"
+    return sum(1 for p, kk, body, last, data in walk_trace(tags, events, trace)
+               if kk == k and body == default and not is_echo(kk, body, last))
 
 
 # ---- malformed stream (C01, C13) ----
